@@ -92,8 +92,19 @@ type ex4Rx struct {
 	canon   []byte
 }
 
+// eligible: a decodable BOOTREPLY for this client's hardware address and transaction, the
+// address fields read from the wire by the independent header reader (not through the
+// decoder under test).
 func (r *ex4Rx) eligible(xid dhcpv4.TransactionID) bool {
-	return r.m != nil && r.m.OpCode == dhcpv4.OpcodeBootReply && bytes.Equal(r.m.ClientHWAddr, ex4ClientHW) && r.m.TransactionID == xid
+	if r.m == nil || len(r.bytes) < 44 {
+		return false
+	}
+	b := r.bytes
+	hl := int(b[2])
+	if hl > 16 {
+		hl = 16 // the chaddr field has 16 bytes: a larger hlen cannot mean more than the field holds
+	}
+	return b[0] == 2 && hl == len(ex4ClientHW) && bytes.Equal(b[28:28+len(ex4ClientHW)], ex4ClientHW) && bytes.Equal(b[4:8], xid[:])
 }
 
 type ex4Tx struct {
